@@ -100,6 +100,9 @@ struct Obs {
     text2: String,
     ast1: Result<String, String>,
     ast2: Result<String, String>,
+    /// SAVE writes the listed text, LOAD reads it back with Listing::load_str: None = not applicable (no line
+    /// number, empty, or longer than the line limit), Some(Ok(text it lists as after loading)) / Some(Err(message))
+    loaded: Option<Result<String, String>>,
 }
 
 fn observe(src: String) -> Obs {
@@ -111,7 +114,17 @@ fn observe(src: String) -> Obs {
     let text2 = line2.to_string();
     let ast1 = line.ast().map(|a| strip_columns(&format!("{:?}", a))).map_err(|e| e.to_string());
     let ast2 = line2.ast().map(|a| strip_columns(&format!("{:?}", a))).map_err(|e| e.to_string());
-    Obs { num, toks, text, num2, toks2, text2, ast1, ast2 }
+    let loaded = match num {
+        Some(n) if !line.is_empty() && src.len() <= 1024 && text.len() <= 1024 => {
+            let mut listing = basic::mach::Listing::default();
+            Some(match listing.load_str(&text) {
+                Ok(()) => Ok(listing.line(n as usize).map(|(t, _)| t).unwrap_or_default()),
+                Err(e) => Err(e.to_string()),
+            })
+        }
+        _ => None,
+    };
+    Obs { num, toks, text, num2, toks2, text2, ast1, ast2, loaded }
 }
 
 static HUNG: std::sync::atomic::AtomicUsize = std::sync::atomic::AtomicUsize::new(0);
@@ -164,6 +177,18 @@ pub fn run(case: &Value) -> (Outcome, Value) {
             return (Outcome::Fail(format!("the line is rejected ({}) but its listed text {:?} parses", e, o.text)), detail);
         }
         (Err(_), Err(_)) => {}
+    }
+    // ---- SAVE then LOAD: a line the prompt accepts and whose listed text is within the line limit loads again
+    // as the same line
+    match &o.loaded {
+        Some(Err(e)) => {
+            return (Outcome::Fail(format!("SAVE then LOAD: the listed text ({} bytes) of an accepted line is refused by LOAD: {}",
+                o.text.len(), e)), detail);
+        }
+        Some(Ok(t)) if *t != o.text2 => {
+            return (Outcome::Fail(format!("SAVE then LOAD: the line loads as {:?}, its listed text re-enters as {:?}", t, o.text2)), detail);
+        }
+        _ => {}
     }
     // ---- spelling variants (C16): the variant must list, parse and number like the canonical text
     if let Some(canon) = case.get("canon") {
